@@ -180,7 +180,13 @@ def run_listen(c):
     events = []
     fail = c['fail']
     reactor = make_reactor(events, fail == 'bind')
-    st = SimTor()
+    if c.get('single'):
+        # an ordinary (anonymous) Tor that knows the two single-hop options, both off: it refuses a NonAnonymous service
+        from harness.simtor import DEFAULT_OPTIONS
+        st = SimTor(options=list(DEFAULT_OPTIONS) + [('HiddenServiceSingleHopMode', 'Boolean'), ('HiddenServiceNonAnonymousMode', 'Boolean')],
+                    store={'HiddenServiceSingleHopMode': ['0'], 'HiddenServiceNonAnonymousMode': ['0']})
+    else:
+        st = SimTor()
     if fail == 'bootstrap':
         st.scripted['GETINFO'] = []          # filled below: reject config/names
     st.connect()
@@ -240,7 +246,8 @@ def run_listen(c):
             config = None
         ep = ep0 if c.get('how') in ('system_tor', 'string') else TCPHiddenServiceEndpoint(reactor, config, c['public'], hidden_service_dir=hsdir, auth=auth, local_port=c.get('local_port'),
                                       ephemeral=(False if c['kind'] == 'fs-implicit' else None),
-                                      private_key=('ED25519-V3:abcd' if c['key'] and c['kind'].startswith('eph') else None), version=c['version'])
+                                      private_key=('ED25519-V3:abcd' if c['key'] and c['kind'].startswith('eph') else None), version=c['version'],
+                                      **({'single_hop': True} if c.get('single') else {}))
         if c['kind'].startswith('fs'):
             d = ep.hidden_service_dir
             if d not in made_dirs:
@@ -437,7 +444,7 @@ def run_cases(cases, drv, tier):
                 corr_ok = (im['events'] == model['events'] and im['open'] == model['open'])
             spec = spec_for(c)
             res.append(Result(c, im, model, spec, corr_ok=corr_ok, prop_ok=(im == spec), in_h=True, nontrivial=True,
-                              tags=['listen', c['kind'], 'fail=' + c['fail'], 'v%s' % c['version'], 'retry' if c.get('retry') else 'relisten' if c.get('relisten') else 'once']))
+                              tags=['listen', c['kind'], 'fail=' + c['fail'], 'v%s' % c['version'], 'retry' if c.get('retry') else 'relisten' if c.get('relisten') else 'once', 'single-hop' if c.get('single') else 'anonymous']))
     return res
 
 
@@ -479,6 +486,9 @@ def gen_cases(rng, tier):
             if kind in ('eph', 'fs-explicit') and not key:
                 yield {'api': 'listen', 'kind': kind, 'version': version, 'key': key, 'fail': fail, 'public': public, 'local_port': local_port,
                        'how': 'string'}
+        if kind == 'eph' and fail in ('none', 'command', 'uploads') and local_port is None:
+            # single_hop=True on a Tor that is not in single-hop mode: Tor's refusal of the ADD_ONION is the failure (and nothing stays open)
+            yield {'api': 'listen', 'kind': kind, 'version': version, 'key': key, 'fail': fail, 'public': public, 'local_port': local_port, 'single': True}
         if kind != 'eph-basic' and fail in ('command', 'uploads'):
             # listen() again on the same endpoint object after the failure
             yield {'api': 'listen', 'kind': kind, 'version': version, 'key': key, 'fail': fail, 'public': public, 'local_port': local_port, 'retry': True}
